@@ -7,7 +7,7 @@
     them" ([all_accepted] = no field is rejected by the documented rule of C05, for any of the five
     traits). *)
 From DX Require Import Syntax Tables GenBound GenAttrs IR GenType GenCmp SpecAttrs SpecBound SemCmp SpecCmp
-     LemBound LemCmp LemReject LemCoh.
+     LemBound LemCmp LemReject LemCoh LemCohEnum.
 
 Section C02.
   Variable V : Type.
@@ -101,6 +101,138 @@ Section C02.
   Qed.
 End C02.
 
+(** ** enums: the same laws for values of any variants (variants ordered by declaration position) *)
+Section C02_enum.
+  Variable V : Type.
+  Variable d_eq : ty -> V -> V -> bool.
+  Variable d_pcmp : ty -> V -> V -> option comparison.
+  Variable d_cmp : ty -> V -> V -> comparison.
+  Variable k_eq : toks -> V -> V -> bool.
+  Variable k_pcmp : toks -> V -> V -> option comparison.
+  Variable k_cmp : toks -> V -> V -> comparison.
+  Variable by_eq : toks -> V -> V -> bool.
+  Variable by_pcmp : toks -> V -> V -> option comparison.
+  Variable by_cmp : toks -> V -> V -> comparison.
+  Variable ce : V -> V -> bool.
+  Variable cp : V -> V -> option comparison.
+  Variable cc : V -> V -> comparison.
+  Hypothesis one_key_lawful : lawful V ce cp cc.
+  Hypothesis keys_express_it : forall t x y, k_eq t x y = ce x y /\ k_pcmp t x y = cp x y /\ k_cmp t x y = cc x y.
+  Hypothesis bys_express_it : forall g x y, by_eq g x y = ce x y /\ by_pcmp g x y = cp x y /\ by_cmp g x y = cc x y.
+  Hypothesis field_types_lawful : forall t, lawful V (d_eq t) (d_pcmp t) (d_cmp t).
+
+  Variable vs : list ventry.
+  Hypothesis accepted : forall v, In v vs -> all_accepted [CPartialEq; CEq; CPartialOrd; COrd; CHash] (ve_fields v).
+
+  Notation e_eq := (sp_enum_eq V d_eq k_eq by_eq by_pcmp by_cmp vs).
+  Notation e_pc := (sp_enum_pcmp V d_pcmp k_pcmp by_pcmp by_cmp vs).
+  Notation e_c := (sp_enum_cmp V d_cmp k_cmp by_cmp vs).
+  Notation S_eq_pc := (C02_eq_iff_partial_cmp V d_eq d_pcmp d_cmp k_eq k_pcmp k_cmp by_eq by_pcmp by_cmp ce cp cc
+                         one_key_lawful keys_express_it bys_express_it field_types_lawful).
+  Notation S_pc_c := (C02_partial_cmp_is_cmp V d_eq d_pcmp d_cmp k_eq k_pcmp k_cmp by_eq by_pcmp by_cmp ce cp cc
+                         one_key_lawful keys_express_it bys_express_it field_types_lawful).
+  Notation S_flip := (C02_cmp_flips V d_eq d_pcmp d_cmp k_eq k_pcmp k_cmp by_eq by_pcmp by_cmp ce cp cc
+                         one_key_lawful keys_express_it bys_express_it field_types_lawful).
+  Notation S_trans := (C02_cmp_transitive V d_eq d_pcmp d_cmp k_eq k_pcmp k_cmp by_eq by_pcmp by_cmp ce cp cc
+                         one_key_lawful keys_express_it bys_express_it field_types_lawful).
+
+  (** partial_cmp == Some(cmp), for values of declared variants (and both are undefined otherwise) *)
+  Theorem C02_enum_partial_cmp_is_cmp : forall a b, e_pc a b = option_map Some (e_c a b).
+  Proof.
+    intros a b. unfold sp_enum_pcmp, sp_enum_cmp.
+    destruct (position vs (v_variant a) 0) as [i|] eqn:Pa; [|reflexivity].
+    destruct (position vs (v_variant b) 0) as [j|]; [|reflexivity].
+    destruct (String.eqb (v_variant a) (v_variant b)); [|reflexivity].
+    destruct (position_variant vs _ _ _ Pa) as (v & Hv & Hin). rewrite Hv. cbn [option_map].
+    rewrite (S_pc_c (ve_fields v) (accepted v Hin)). reflexivity.
+  Qed.
+
+  (** a == b  <->  cmp(a, b) == Equal *)
+  Theorem C02_enum_eq_iff_cmp :
+    forall a b i j, position vs (v_variant a) 0 = Some i -> position vs (v_variant b) 0 = Some j ->
+                    (e_eq a b = true <-> e_c a b = Some Eq).
+  Proof.
+    intros a b i j Pa Pb. unfold sp_enum_eq, sp_enum_cmp. rewrite Pa, Pb.
+    destruct (String.eqb (v_variant a) (v_variant b)) eqn:E.
+    - destruct (position_variant vs _ _ _ Pa) as (v & Hv & Hin). rewrite Hv. cbn [option_map].
+      rewrite (C02_eq_iff_cmp V d_eq d_pcmp d_cmp k_eq k_pcmp k_cmp by_eq by_pcmp by_cmp ce cp cc
+                 one_key_lawful keys_express_it bys_express_it field_types_lawful (ve_fields v) (accepted v Hin)).
+      split; [intros ->; reflexivity | intros [= ->]; reflexivity].
+    - split; [discriminate|]. intros [= H]. apply Nat.compare_eq in H. subst j.
+      rewrite (position_inj vs _ _ _ _ Pa Pb), String.eqb_refl in E. discriminate.
+  Qed.
+
+  Theorem C02_enum_eq_iff_partial_cmp :
+    forall a b i j, position vs (v_variant a) 0 = Some i -> position vs (v_variant b) 0 = Some j ->
+                    (e_eq a b = true <-> e_pc a b = Some (Some Eq)).
+  Proof.
+    intros a b i j Pa Pb. rewrite C02_enum_partial_cmp_is_cmp, (C02_enum_eq_iff_cmp a b i j Pa Pb).
+    destruct (e_c a b) as [c|]; cbn [option_map]; split; intros H; try discriminate; congruence.
+  Qed.
+
+  (** cmp flips under argument swap *)
+  Theorem C02_enum_cmp_flips : forall a b, e_c b a = option_map CompOpp (e_c a b).
+  Proof.
+    intros a b. unfold sp_enum_cmp.
+    destruct (position vs (v_variant a) 0) as [i|] eqn:Pa, (position vs (v_variant b) 0) as [j|] eqn:Pb; try reflexivity.
+    rewrite (String.eqb_sym (v_variant b) (v_variant a)).
+    destruct (String.eqb (v_variant a) (v_variant b)) eqn:E.
+    - apply String.eqb_eq in E. rewrite <- E.
+      destruct (position_variant vs _ _ _ Pa) as (v & Hv & Hin). rewrite Hv. cbn [option_map].
+      rewrite (S_flip (ve_fields v) (accepted v Hin)). reflexivity.
+    - cbn [option_map]. rewrite Nat.compare_antisym. reflexivity.
+  Qed.
+
+  (** cmp is transitive (a strict total order on the values of declared variants) *)
+  Theorem C02_enum_cmp_transitive :
+    forall a b c, e_c a b = Some Lt -> e_c b c = Some Lt -> e_c a c = Some Lt.
+  Proof.
+    intros a b c. unfold sp_enum_cmp.
+    destruct (position vs (v_variant a) 0) as [i|] eqn:Pa; [|discriminate].
+    destruct (position vs (v_variant b) 0) as [j|] eqn:Pb; [|discriminate].
+    destruct (position vs (v_variant c) 0) as [k|] eqn:Pc; [|intros _; discriminate].
+    destruct (String.eqb (v_variant a) (v_variant b)) eqn:Eab, (String.eqb (v_variant b) (v_variant c)) eqn:Ebc.
+    - apply String.eqb_eq in Eab, Ebc. rewrite <- Ebc, <- Eab, String.eqb_refl.
+      destruct (position_variant vs _ _ _ Pa) as (v & Hv & Hin). rewrite Hv. cbn [option_map].
+      intros [= H1] [= H2]. f_equal. exact (S_trans (ve_fields v) (accepted v Hin) a b c H1 H2).
+    - apply String.eqb_eq in Eab. rewrite Eab, Ebc. rewrite Eab, Pb in Pa. injection Pa as ->.
+      intros _ H. exact H.
+    - apply String.eqb_eq in Ebc. rewrite <- Ebc, Eab. rewrite <- Ebc, Pb in Pc. injection Pc as ->.
+      intros H _. exact H.
+    - intros [= H1] [= H2]. apply Nat.compare_lt_iff in H1, H2.
+      assert (Hik : i < k) by (eapply Nat.lt_trans; eassumption).
+      destruct (String.eqb (v_variant a) (v_variant c)) eqn:Eac.
+      + apply String.eqb_eq in Eac. rewrite Eac, Pc in Pa. injection Pa as ->. exfalso. exact (Nat.lt_irrefl _ Hik).
+      + f_equal. apply Nat.compare_lt_iff. exact Hik.
+  Qed.
+
+  (** a == b implies equal hash feeds: equal values are values of the same variant, hashed field by field *)
+  Variable H : Type.
+  Variable hd : ty -> V -> H.
+  Variable hk : toks -> V -> H.
+  Variable hb : toks -> V -> H.
+  Variable kh : V -> H.
+  Hypothesis key_hash : forall t x, hk t x = kh x.
+  Hypothesis by_hash : forall g x, hb g x = kh x.
+  Hypothesis key_hash_consistent : forall x y, ce x y = true -> kh x = kh y.
+  Hypothesis field_hash_consistent_ : forall t x y, d_eq t x y = true -> hd t x = hd t y.
+
+  Theorem C02_enum_eq_implies_equal_hash :
+    forall a b, e_eq a b = true ->
+      exists v, variant_named vs (v_variant a) = Some v /\ variant_named vs (v_variant b) = Some v /\
+                map (fun f => h_field V H hd hk hb f (at_ V a f)) (cmp_used_fields CHash (ve_fields v))
+                = map (fun f => h_field V H hd hk hb f (at_ V b f)) (cmp_used_fields CHash (ve_fields v)).
+  Proof.
+    intros a b. unfold sp_enum_eq. destruct (String.eqb (v_variant a) (v_variant b)) eqn:E; [|discriminate].
+    apply String.eqb_eq in E. destruct (variant_named vs (v_variant a)) as [v|] eqn:Hv; [|discriminate].
+    intros Heq. exists v. rewrite <- E, Hv. repeat split.
+    assert (Hin : In v vs) by (unfold variant_named in Hv; apply find_some in Hv; apply Hv).
+    exact (C02_eq_implies_equal_hash V d_eq k_eq k_pcmp k_cmp by_eq by_pcmp by_cmp ce cp cc one_key_lawful
+             keys_express_it bys_express_it (ve_fields v) (accepted v Hin) H hd hk hb kh key_hash by_hash
+             key_hash_consistent field_hash_consistent_ a b Heq).
+  Qed.
+End C02_enum.
+
 (** "A combination for which this cannot be guaranteed is refused at compile time": the three ways
     in which the traits could come to disagree are exactly what the rejection rule forbids *)
 Theorem C02_refused_custom_mixed_with_default :
@@ -116,6 +248,12 @@ Theorem C02_refused_hash_ignoring_less :
 Proof. exact hash_ignoring_less_refused. Qed.
 
 Print Assumptions C02_eq_iff_partial_cmp.
+Print Assumptions C02_enum_partial_cmp_is_cmp.
+Print Assumptions C02_enum_eq_iff_cmp.
+Print Assumptions C02_enum_eq_iff_partial_cmp.
+Print Assumptions C02_enum_cmp_flips.
+Print Assumptions C02_enum_cmp_transitive.
+Print Assumptions C02_enum_eq_implies_equal_hash.
 Print Assumptions C02_partial_cmp_is_cmp.
 Print Assumptions C02_eq_iff_cmp.
 Print Assumptions C02_cmp_flips.
